@@ -256,6 +256,8 @@ def class_attr(E, clsv, attr):
     if r is not None:
         m, c, fn = r
         return V("fn", None, items=("def", fn, {}, m, None), py=f"{c}.{attr}")
+    if f"{cname}.{attr}" in mod.nested:
+        return V("fn", None, items=("class", mod.nested[f"{cname}.{attr}"], None, mod, None), py=attr)
     raise OutOfSubset(f"class attribute {cname}.{attr}")
 
 
@@ -399,6 +401,7 @@ def slice_of(E, base, sl, node):
 # ---------------------------------------------------------------- dicts (true maps)
 def new_dict(E, kty, vty):
     ref = E.alloc()
+    E.set_kind(ref, "dict")
     E.st.heap.store("len", I, ref, z3.IntVal(0))
     ks = sort_of(kty) if kty else I
     E.st.heap.store("dom." + sort_tag(ks), z3.ArraySort(ks, B), ref, z3.K(ks, z3.BoolVal(False)))
@@ -696,6 +699,7 @@ def make_exception(E, node):
         cls = canon_class(E, cname)
         ref = E.alloc()
         exc = V(("obj", cls), ref)
+        E.set_kind(ref, E.kind_name(exc.ty))
         # evaluate arguments (they may have effects / reference values); message is kept as field `args0`
         args = []
         for a in node.args:
@@ -724,7 +728,9 @@ def opaque_exception(E, cls):
     """an exception object raised by a callee: a fresh object (aliases nothing), fields unconstrained"""
     if E.st.spec or E.st.pure:
         return E.symbolic("exc", ("obj", cls))
-    return V(("obj", cls), E.alloc())
+    ref = E.alloc()
+    E.set_kind(ref, E.kind_name(("obj", cls)))
+    return V(("obj", cls), ref)
 
 
 def handler_matches(E, h, r):
@@ -1204,6 +1210,7 @@ def construct(E, clsv, args, kwargs, node):
     c = E.registry.get(f"{cname}.__init__")
     ref = E.alloc()
     obj = V(("obj", cname), ref)
+    E.set_kind(ref, E.kind_name(obj.ty))
     E.st.heap.store("cls", I, ref, atom("cls:" + cname))
     r = E.repo.resolve_method(mod, cname, "__init__")
     if r is None:
